@@ -347,6 +347,27 @@ def run(ctx):
                 if cmps != want:
                     badk = badk or "a path that pops %d round(s) has the loop tests %s on num_round_back, not j < n for j < %d and not %d < n" % (k_pops, sorted(cmps.items()), k_pops, k_pops)
             ctx.inst("R18.3", "previous-exactly-n-back", badk is None and n_chk > 0, pa.fn.where(), badk or "%d success paths: k pops <=> num_round_back == k" % n_chk)
+        else:
+            # no popping: the answer must be the element exactly `num_round_back` places before the last one of the stored
+            # list (`iter().rev().nth(n)`; zero places back is `last()`)
+            for q in oks:
+                r = ix.inline(pa.c(sym.unwrap(q.ret)))
+                while tag(r) == "unwrap":
+                    r = kids(r)[0]
+                n_chk += 1
+                def stored_list(v):
+                    for y in sym.walk(v):
+                        if guards.loaded_item(ix, y, PF) == "margined_pricefeed:prices":
+                            return True
+                        outs = ix.outcomes(y) if tag(y) == "call" else None
+                        if outs and any(guards.loaded_item(ix, sym.unwrap(ret), PF) == "margined_pricefeed:prices" for (_p, ret, _m) in outs):
+                            return True
+                    return False
+                okn = tag(r) == "call" and payload(r)[0] == "list::nth_back" and ix.inline(kids(r)[1]) in (n_v, ix.inline(n_v)) and \
+                    stored_list(kids(r)[0]) and not any(tag(y) == "mutby" for y in sym.walk(kids(r)[0]))
+                if not okn:
+                    badk = badk or "the answer is %s, not the stored list's element num_round_back places before the last" % sym.show(r, 6)[:200]
+            ctx.inst("R18.3", "previous-exactly-n-back", badk is None and n_chk > 0, pa.fn.where(), badk or "%d success paths answer nth_back(stored list, num_round_back)" % n_chk)
     except KeyError as e:
         ctx.lost("R18.3", str(e))
 
